@@ -50,6 +50,12 @@ def single_controls():
             out.append(ctl("time", "=", t, v))
     for c in CLOCKS:
         out.append(ctl("clock", "=", c, "CLOSED"))
+    # API-only variants (no EPANET syntax): a time control repeating every `repeat` seconds, a clock control firing once
+    for t in (H, H + 21 * 60 + 40):
+        for rp in (2 * H, True):
+            out.append(dict(ctl("time", "=", t, "CLOSED"), repeat=rp))
+    for c in (H, 6 * H + 1800):
+        out.append(dict(ctl("clock", "=", c, "CLOSED"), repeat=False))
     for rel in RELS:
         for t in TIMES:
             out.append(ctl("time", rel, t, "CLOSED", rule=True))
@@ -76,8 +82,11 @@ def conflict(a, b):
         return False
     if ra:
         return a.get("prio", 3) == b.get("prio", 3)
-    # two simple controls: only a conflict when they can fire at the same instant (same instant, or time vs clock overlap)
-    return True
+    # two simple controls: a conflict only when they can fire at the same instant (for any start_clocktime of the space)
+    for start in (0, 3 * H, 22 * H):
+        if set(fire_instants(a, start, DUR)) & set(fire_instants(b, start, DUR)):
+            return True
+    return False
 
 
 def cases(tier):
@@ -96,7 +105,8 @@ def cases(tier):
     A = [ctl("time", "=", t, "CLOSED") for t in (H, H + 21 * 60 + 40, 2 * H)] + [ctl("clock", "=", c, "CLOSED") for c in (H, 6 * H + 1800)]
     A += [ctl("time", rel, t, "CLOSED", rule=True, prio=p) for rel in (">=", "<", "=") for t in (H, H + 18 * 60) for p in (1, 5)]
     A += [ctl("clock", rel, c, "CLOSED", rule=True, prio=p) for rel in (">=", "<=") for c in (6 * H + 1800,) for p in (1, 5)]
-    B = [ctl("time", "=", t, "OPEN") for t in (H, 2 * H, 3 * H)] + [ctl("clock", "=", c, "OPEN") for c in (6 * H + 1800, 23 * H)]
+    A += [dict(ctl("time", "=", H, "CLOSED"), repeat=2 * H), dict(ctl("time", "=", H + 21 * 60 + 40, "CLOSED"), repeat=True)]
+    B = [ctl("time", "=", t, "OPEN") for t in (H, 2 * H, 3 * H)] + [dict(ctl("time", "=", 2 * H, "OPEN"), repeat=2 * H)] + [ctl("clock", "=", c, "OPEN") for c in (6 * H + 1800, 23 * H)]
     B += [ctl("time", rel, t, "OPEN", rule=True, prio=3) for rel in (">=", "<", "=") for t in (H, 2 * H)]
     B += [ctl("clock", rel, c, "OPEN", rule=True, prio=3) for rel in (">=", "<") for c in (H, 23 * H)]
     for a, b in itertools.product(A, B):
@@ -175,6 +185,28 @@ def rule_true(c, tau, prev, start):
     return {">": x > t, ">=": x >= t, "<": x < t, "<=": x <= t}[rel]
 
 
+def fire_instants(c, start, dur):
+    """instants at which a simple time / clock-time control fires"""
+    out = []
+    if c["kind"] == "time":
+        rp = c.get("repeat", False)
+        rp = DAY if rp is True else rp
+        tau = c["t"]
+        while tau <= dur:
+            out.append(tau)
+            if not rp:
+                break
+            tau += rp
+    else:
+        tau = (c["t"] - start) % DAY
+        while tau <= dur:
+            out.append(tau)
+            if c.get("repeat", True) is False:
+                break
+            tau += DAY
+    return out
+
+
 def timeline(s):
     """returns (events, status_at): events = sorted list of instants at which something acts; status(tau) of link pa"""
     o = s["opts"]
@@ -183,14 +215,8 @@ def timeline(s):
     rules = [c for c in s["controls"] if c.get("rule")]
     inst = set()
     for c in simple:
-        if c["kind"] == "time":
-            if c["t"] <= dur:
-                inst.add(c["t"])
-        else:
-            tau = (c["t"] - start) % DAY
-            while tau <= dur:
-                inst.add(tau)
-                tau += DAY
+        for tau in fire_instants(c, start, dur):
+            inst.add(tau)
     if rules:
         inst.update(range(rs, dur + 1, rs))
     status = "OPEN"
@@ -207,8 +233,7 @@ def timeline(s):
             for _, _, v in sorted(acts):        # lowest priority first: the highest priority determines the outcome
                 new = v
         for c in simple:
-            fire = (c["kind"] == "time" and c["t"] == tau) or (c["kind"] == "clock" and (tau + start) % DAY == c["t"] % DAY)
-            if fire:
+            if tau in fire_instants(c, start, dur):
                 new = c["value"]
         if new != status:
             changes.append((tau, new))
@@ -246,10 +271,15 @@ def run_case(s):
     viol, counts = [], {}
     changes = timeline(s)
     # ---- reference vs EPANET (validates the reference; EPANET visits its own set of instants)
-    ct, rt = en_texts(s)
-    en = EN.run_hydraulics(EN.inp_lps(s, ct, rt), links=["pa"])
-    counts["epanet_instants"] = len(en)
-    en_times = [t for t, _, _, _ in en]
+    api_only = any("repeat" in c for c in s["controls"])
+    if api_only:
+        counts["api_only_no_epanet_syntax"] = 1
+        en, en_times = [], [t for t, _ in changes]
+    else:
+        ct, rt = en_texts(s)
+        en = EN.run_hydraulics(EN.inp_lps(s, ct, rt), links=["pa"])
+        counts["epanet_instants"] = len(en)
+        en_times = [t for t, _, _, _ in en]
     for t, code, lv, _ in en:
         est = "OPEN" if lv["pa"][0] >= 1 else "CLOSED"
         if est != status_at(changes, t):
@@ -263,7 +293,7 @@ def run_case(s):
     if r.error:
         viol.append({"key": "run-fails", "what": "WNTRSimulator did not complete: %s" % r.warnings[:1]})
         return {"viol": viol, "counts": counts}
-    kinds = "+".join(sorted(set(("rule-" if c.get("rule") else "simple-") + c["kind"] + ("" if not c.get("rule") else ":" + c["rel"]) for c in s["controls"])))
+    kinds = "+".join(sorted(set(("rule-" if c.get("rule") else "simple-") + c["kind"] + ("-repeat" if c.get("repeat") not in (None, False) and c["kind"] == "time" else "") + ("-once" if c.get("repeat") is False else "") + ("" if not c.get("rule") else ":" + c["rel"]) for c in s["controls"])))
     st = r.link["status"]["pa"]
     counts["solved_instants"] = len(r.times)
     for t, v in changes:
